@@ -152,11 +152,14 @@ def run(ctx: Ctx) -> None:
     # one-preemption schedule (source-line granularity) of sign/verify pairs, outputs checked by refimpl
     from . import c20
     from .common import pmap
-    cpairs = [(k, a, b, 1, ctx.seed, 4) for k in ("oct256", "EC:P-256") for a, b in (("sign", "sign_ks"), ("sign_ks", "verify2"), ("sign2", "sign_ks"), ("verify", "sign_ks"))]
+    cpairs = [(k, a, b, 1, ctx.seed, 4) for k in ("oct256", "EC:P-256") for a, b in (("sign", "sign_ks"), ("sign_ks", "verify2"), ("sign2", "sign_ks"), ("verify", "sign_ks"), ("verify", "verify2"))]
     for (kind, a, b, na, nb), n, found in pmap(c20.explore, cpairs, chunksize=1, procs=8):
         ctx.evaluations += n
         for pr, pre, first in found[:2]:
             ctx.violation(f"jwswire:threads {a}||{b} [{kind}] -> {pr.split(':', 1)[-1].strip()[:60]}", {"kind": kind, "ops": [a, b], "preempts": pre, "first": first, "problem": pr})
+    # (b'') reference-signed tokens validate whatever else has been parsed meanwhile (split API histories, JwsInFlight.tla)
+    from . import inflight
+    ctx.evaluations += inflight.run(ctx, "C07")
     # (c) published vectors
     _pi = __import__("harness.common", fromlist=["_pool_init"])._pool_init
     _pi()
@@ -171,5 +174,10 @@ def run(ctx: Ctx) -> None:
 
 
 def replay(ctx: Ctx, rec: dict) -> None:
+    if rec.get("inflight"):
+        from . import inflight
+        from .common import _pool_init
+        _pool_init()
+        return inflight.replay(ctx, rec)
     print(json.dumps(rec, indent=1)[:2000])
     print("re-run ./check C07 to re-evaluate (cases are regenerated from the seed)")
